@@ -898,7 +898,9 @@ def build_image(env, case, d):
                     f.write(c)
                 continue
             (d / ("f%d.bin" % i)).write_bytes(c)
-            lines.append(b"file " + pack_entry_name(b"/" + p) + b" 0644 0 0 " + str(d / ("f%d.bin" % i)).encode())
+            h = sum(p)                                              # permission bits and owners vary with the name
+            attr = b" 0%o %d %d " % ([0o644, 0o600, 0o755, 0o444][h % 4], h % 3, (h // 3) % 3)
+            lines.append(b"file " + pack_entry_name(b"/" + p) + attr + str(d / ("f%d.bin" % i)).encode())
         if via_glob:
             lines.insert(min(len(lines), case["optseed"] % (len(lines) + 1)),
                          b"glob /" + case["glob_dir"] + b" 0644 0 0 -type f ./globsrc")
@@ -1068,6 +1070,8 @@ def compress_table(env, case, payloads, table):
     if not todo:
         return
     out = env.run_harness(["cinit %s %d" % (case["comp"], case["B"])] + ["cmp " + hx(p) for p in todo])
+    if out[0] != "ok" or len(out) != len(todo) + 1 or "bad-op" in out:
+        raise vlib.CheckFailure("block compressor oracle failed: %s" % out[0])
     for p, o in zip(todo, out[1:]):
         table[p] = None if o in ("-", "err") else unhx(o)
 
@@ -1327,6 +1331,8 @@ def monitor_read(env, case, real, table, order):
         last = out.pop()
         if last != "ok":
             lean_eff = last.split()
+    if len(out) != len(keys):
+        raise vlib.CheckFailure("mon-read: %d answers for %d files" % (len(out), len(keys)))
     return [p for (p, c), o in zip(keys, out) if unhx(o) != c], lean_eff
 
 
